@@ -204,6 +204,8 @@ def classify(res, lines, unit):
         return 'canary', desc
     if fn.startswith('__CPROVER_contracts') or prop.startswith('__CPROVER_contracts'):
         return 'A', 'contract instrumentation: %s' % desc
+    if 'undefined function' in desc:      # a call the extraction has no stub for: the changed code is outside the verified text, not a refutation
+        return 'A', desc
     if '.postcondition' in prop or 'ensures clause' in desc:
         return 'P', 'postcondition of %s: %s' % (fn or unit.get('enforce', ''), srcline)
     if '.assertion' in prop or prop.endswith('.assert') or re.search(r'\.assertion\.\d+$', prop):
